@@ -3,5 +3,5 @@ CONSTANTS
   Streams <- HsSet
   MaxChunk = 16
   Variant = "asitwas"
-INVARIANTS AtRestI LeftoverI BoundedI
+INVARIANTS BoundedI
 CHECK_DEADLOCK FALSE
